@@ -606,9 +606,25 @@ class Inliner:
                     rename[p] = new
                 pre.append(ast.copy_location(ast.Assign(targets=[ast.Name(id=new, ctx=ast.Store())], value=acopy(v), lineno=stmt.lineno), stmt))
                 pre[-1]._inl_temp = True  # type: ignore[attr-defined]  # argument binding introduced by the inliner (sa/normalize.py folds it back)
+        # names the call is control-dependent on: tests of the if/while statements that enclose it in the caller
+        guard_names: Set[str] = set()
+        def _find_path(node, target, path):
+            if node is target:
+                return path
+            for ch in ast.iter_child_nodes(node):
+                r_ = _find_path(ch, target, path + [node])
+                if r_ is not None:
+                    return r_
+            return None
+        for anc in (_find_path(caller, stmt, []) or []):
+            if isinstance(anc, (ast.If, ast.While)):
+                guard_names |= _names(anc.test)
         for loc in sorted(assigned - set(binding)):
             if loc in caller_names and loc not in target_names and loc not in rename.values() \
-                    and not dead_after(loc, getattr(self, "_frames", [([], None, False)])):
+                    and (not dead_after(loc, getattr(self, "_frames", [([], None, False)])) or loc in guard_names):
+                # a helper local may share the caller's (dead) variable of the same name -- that is how the code looked before the helper was
+                # extracted -- unless the call sits under a test of that variable: rebinding the guarded name inside its own guard gives one
+                # name two unrelated values exactly where rules reason about the guard
                 rename[loc] = self._fresh(loc, caller_names)
             elif loc in rename.values() or loc in {w.id for w in binding.values() if isinstance(w, ast.Name)}:
                 rename[loc] = self._fresh(loc, caller_names)
@@ -631,6 +647,47 @@ class Inliner:
 
             def emit(v, node):
                 return [ast.copy_location(ast.Pass(), node)]
+        elif isinstance(mode, tuple) and mode[0] == "consume":
+            # the generator's items are consumed at once by the caller (list(g(..)), x.extend(g(..)), for v in g(..): body): every
+            # `yield E` becomes what the consumer does with one item; a bare `return` may only end the generator at its tail
+            if not gen:
+                raise Unsupported("consumer form on a non-generator helper")
+            per_item = mode[1]
+            n_yield = [0]
+
+            def ylower(block: List[ast.stmt]) -> List[ast.stmt]:
+                res: List[ast.stmt] = []
+                for st in block:
+                    if isinstance(st, ast.Expr) and isinstance(st.value, ast.Yield):
+                        n_yield[0] += 1
+                        res.extend(per_item(st.value.value if st.value.value is not None else ast.Constant(value=None), st))
+                        continue
+                    if any(isinstance(n, (ast.Yield, ast.YieldFrom)) for n in _walk_no_defs(st)) or isinstance(st, ast.Expr) and isinstance(st.value, ast.YieldFrom):
+                        if isinstance(st, (ast.If, ast.For, ast.While, ast.With, ast.Try)):
+                            for fld in ("body", "orelse", "finalbody"):
+                                sub = getattr(st, fld, None)
+                                if isinstance(sub, list) and sub and isinstance(sub[0], ast.stmt):
+                                    setattr(st, fld, ylower(sub))
+                            if isinstance(st, ast.Try):
+                                for h in st.handlers:
+                                    h.body = ylower(h.body)
+                            if any(isinstance(n, (ast.Yield, ast.YieldFrom)) for n in _walk_no_defs(st)):
+                                raise Unsupported("yield in an expression position")
+                            res.append(st)
+                            continue
+                        raise Unsupported("yield in an expression position")
+                    res.append(st)
+                return res
+            body = ylower(body)
+            if mode[2] and n_yield[0] != 1:
+                raise Unsupported("consumer body would be duplicated (several yields)")
+            # returns: only a trailing bare return
+            if any(isinstance(n, ast.Return) for st in body[:-1] for n in [st, *_walk_no_defs(st)]) or (
+                    body and not isinstance(body[-1], ast.Return) and any(isinstance(n, ast.Return) for n in _walk_no_defs(body[-1]))):
+                raise Unsupported("generator helper returns before its end")
+            if body and isinstance(body[-1], ast.Return):
+                body = body[:-1]
+            return _relocate(pre + (body or [ast.copy_location(ast.Pass(), stmt)]), stmt)
         elif gen:
             raise Unsupported("generator helper not used by `yield from`")
         elif mode == "expr":
@@ -746,6 +803,9 @@ class Inliner:
                     s.test = ast.copy_location(ast.UnaryOp(op=ast.Not(), operand=name), t) if neg else name
                     self.log.append(f"{self.modname}: inlined {c[0].name} (condition) at line {s.lineno}")
                     return pre + [s]
+        cons = self._consumer_form(s, caller, cls, extras, current)
+        if cons is not None:
+            return cons
         if call is not None:
             c = self._callee_of(call, cls, extras)
             if c and c[0].name not in current:
@@ -763,6 +823,68 @@ class Inliner:
         # expression helpers anywhere inside the statement's own expressions
         if self._subst_expr_helpers(s, cls, extras, current):
             return [s]
+        return None
+
+    def _consumer_form(self, s: ast.stmt, caller, cls, extras, current) -> Optional[List[ast.stmt]]:
+        """statements that consume all items of a generator helper at once"""
+        def gen_call(e):
+            if isinstance(e, ast.Call):
+                c = self._callee_of(e, cls, extras)
+                if c and c[0].name not in current and _has_yield(c[0]):
+                    return c
+            return None
+
+        def run(c, call, per_item, dup):
+            try:
+                new = self._expand(c[0], c[1], c[2], call, caller, s, ("consume", per_item, dup), set())
+                self.log.append(f"{self.modname}: inlined generator {c[0].name} into its consumer at line {s.lineno}")
+                return new
+            except Unsupported as e:
+                self.log.append(f"{self.modname}: generator {c[0].name} at line {s.lineno} not inlined: {e}")
+                return None
+
+        # T = list(g(..)) / return list(g(..)) / T = set(g(..)) / tuple(..)
+        val = s.value if isinstance(s, (ast.Assign, ast.Return)) else None
+        if isinstance(val, ast.Call) and isinstance(val.func, ast.Name) and val.func.id in ("list", "set", "tuple") and len(val.args) == 1 and not val.keywords:
+            c = gen_call(val.args[0])
+            if c:
+                if isinstance(s, ast.Assign) and len(s.targets) == 1 and isinstance(s.targets[0], ast.Name) and val.func.id == "list" \
+                        and not any(isinstance(n, ast.Name) and n.id == s.targets[0].id for n in ast.walk(val)):
+                    acc = s.targets[0].id
+                    tail: List[ast.stmt] = []
+                else:
+                    acc = self._fresh("items", _names(caller))
+                    wrapped = ast.Name(id=acc, ctx=ast.Load()) if val.func.id == "list" else ast.Call(func=ast.Name(id=val.func.id, ctx=ast.Load()), args=[ast.Name(id=acc, ctx=ast.Load())], keywords=[])
+                    fin = acopy(s)
+                    fin.value = ast.copy_location(wrapped, val)
+                    tail = [fin]
+                init = ast.copy_location(ast.Assign(targets=[ast.Name(id=acc, ctx=ast.Store())], value=ast.List(elts=[], ctx=ast.Load()), lineno=s.lineno), s)
+
+                def per_item(v, node, acc=acc):
+                    return [ast.copy_location(ast.Expr(value=ast.Call(func=ast.Attribute(value=ast.Name(id=acc, ctx=ast.Load()), attr="append", ctx=ast.Load()), args=[v], keywords=[])), node)]
+                new = run(c, val.args[0], per_item, False)
+                if new is not None:
+                    return [init] + new + tail
+        # X.extend(g(..)) / X.update(g(..))
+        if isinstance(s, ast.Expr) and isinstance(s.value, ast.Call) and isinstance(s.value.func, ast.Attribute) and s.value.func.attr in ("extend", "update") \
+                and len(s.value.args) == 1 and not s.value.keywords and _simple(s.value.func.value):
+            c = gen_call(s.value.args[0])
+            if c:
+                recv = s.value.func.value
+                meth = "append" if s.value.func.attr == "extend" else "add"
+
+                def per_item2(v, node, recv=recv, meth=meth):
+                    return [ast.copy_location(ast.Expr(value=ast.Call(func=ast.Attribute(value=acopy(recv), attr=meth, ctx=ast.Load()), args=[v], keywords=[])), node)]
+                return run(c, s.value.args[0], per_item2, False)
+        # for V in g(..): BODY   (BODY without break / continue / return, one yield in g)
+        if isinstance(s, ast.For) and not s.orelse:
+            c = gen_call(s.iter)
+            if c and not any(isinstance(n, (ast.Break, ast.Continue, ast.Return, ast.Yield, ast.YieldFrom)) for b in s.body for n in [b, *_walk_no_defs(b)]):
+                tgt, loop_body = s.target, s.body
+
+                def per_item3(v, node, tgt=tgt, loop_body=loop_body):
+                    return [ast.copy_location(ast.Assign(targets=[acopy(tgt)], value=v, lineno=node.lineno), node)] + acopy(loop_body)
+                return run(c, s.iter, per_item3, True)
         return None
 
     @staticmethod
